@@ -223,8 +223,13 @@ class Ctx:
             'wall_s': round(wall, 2),
             'violations': len(lines),
         }
-        os.makedirs(os.path.join(VERIF, 'evidence'), exist_ok=True)
-        with open(os.path.join(VERIF, 'evidence', f'{self.prop}.json'), 'w') as f:
+        # evidence belongs to /repo itself; runs against a scratch worktree
+        # (VERIF_REPO=...) leave it alone
+        evdir = os.path.join(VERIF, 'evidence')
+        if os.path.realpath(os.environ.get('VERIF_REPO', '/repo')) != '/repo':
+            evdir = os.path.join(VERIF, '.work', 'evidence-scratch')
+        os.makedirs(evdir, exist_ok=True)
+        with open(os.path.join(evdir, f'{self.prop}.json'), 'w') as f:
             json.dump(ev, f, indent=1, default=repr)
         print(f'{self.prop} {self.tier}: theorems {self.discharged}/{self.obligations}, '
               f'correspondence cases {sum(c["cases"] for c in self.corr)}, '
